@@ -41,6 +41,7 @@ pub struct Opts {
     pub known: Option<String>,
     pub quiet: bool,
     pub only_hash: bool,
+    pub dump_hashes: Option<String>,
     pub from: u64,
 }
 
@@ -52,6 +53,7 @@ struct Acc {
     nontrivial_shapes: HashSet<u64>,
     viol: Vec<(u64, Violation)>,
     invalid: u64,
+    hashes: Vec<(u64, u64, String)>,
     batch_hash: u64,
     evals: u64,
 }
@@ -200,6 +202,7 @@ pub fn run(prop: &dyn Prop, o: &Opts) -> i32 {
     let end = o.from + total;
     let accs: Mutex<Vec<Acc>> = Mutex::new(vec![]);
     let workers = o.workers.max(1);
+    let dump_hashes = o.dump_hashes.is_some();
     let slow_ms: u64 = std::env::var("VERIF_SLOW_MS").ok().and_then(|s| s.parse().ok()).unwrap_or(0);
     std::thread::scope(|s| {
         for _ in 0..workers {
@@ -224,6 +227,9 @@ pub fn run(prop: &dyn Prop, o: &Opts) -> i32 {
                     }
                     let mut x = i ^ out.hist.rotate_left(23);
                     a.batch_hash = a.batch_hash.wrapping_add(splitmix(&mut x));
+                    if dump_hashes {
+                        a.hashes.push((i, out.hist, out.violation.as_ref().map(|v| v.sig()).unwrap_or_default()));
+                    }
                     if o.only_hash {
                         continue;
                     }
@@ -253,8 +259,35 @@ pub fn run(prop: &dyn Prop, o: &Opts) -> i32 {
         m.nontrivial_shapes.extend(a.nontrivial_shapes);
         m.viol.extend(a.viol);
         m.invalid += a.invalid;
+        m.hashes.extend(a.hashes);
         m.batch_hash = m.batch_hash.wrapping_add(a.batch_hash);
         m.evals += a.evals;
+    }
+    if let Some(path) = &o.dump_hashes {
+        m.hashes.sort();
+        let mut txt = String::new();
+        for (i, h, v) in &m.hashes {
+            txt.push_str(&format!("{} {:016x} {}\n", i, h, v));
+        }
+        if std::fs::write(path, txt).is_err() {
+            eprintln!("HARNESS ERROR: cannot write {}", path);
+            return 2;
+        }
+    }
+    let mut extra: Vec<(Scenario, Violation)> = vec![];
+    if !o.only_hash {
+        for sc in prop.post_batch(o.seed, total, o.tier) {
+            let out = prop.execute(&sc);
+            m.evals += 1;
+            m.stats.merge(&out.stats);
+            if out.nontrivial {
+                m.nontrivial_shapes.insert(sc.shape_hash());
+            }
+            m.shapes.insert(sc.shape_hash());
+            if let Some(v) = out.violation {
+                extra.push((sc, v));
+            }
+        }
     }
     if o.only_hash {
         println!("BATCH-HASH {} {} seed={} runs={} hash={:016x}", prop.id(), o.tier.name(), o.seed, total, m.batch_hash);
@@ -281,7 +314,10 @@ pub fn run(prop: &dyn Prop, o: &Opts) -> i32 {
         for (i, v) in members.iter().take(if gi < 60 { per_group } else { 1 }) {
             let mut rng = Rng::new(run_seed(o.seed, prop.id(), *i));
             let sc = prop.generate(*i, &mut rng, o.tier);
-            let mini = minimise(prop, &sc, v, 3000);
+            // deterministic effort budget: fewer re-executions for expensive scenarios
+            let cost: usize = sc.events.len() + sc.feeds.iter().map(|f| f.len()).sum::<usize>() * sc.trees.len().max(1);
+            let budget = (30_000_000usize / cost.max(1)).clamp(60, 3000);
+            let mini = minimise(prop, &sc, v, budget);
             let fname = format!("{}/{}-{}-{}-{}.json", o.replays_dir, prop.id(), o.seed, i, profile_short());
             let file = json!({
                 "format": "sliding_features-sim-replay-1",
@@ -325,6 +361,21 @@ pub fn run(prop: &dyn Prop, o: &Opts) -> i32 {
                 reported.push(json!({"known": false, "run": i, "replay": fname, "what": what, "group_size": members.len()}));
             }
         }
+    }
+    for (xi, (sc, v)) in extra.iter().enumerate() {
+        let fname = format!("{}/{}-{}-post{}-{}.json", o.replays_dir, prop.id(), o.seed, xi, profile_short());
+        let file = json!({
+            "format": "sliding_features-sim-replay-1", "property": prop.id(), "profile": profile_short(), "seed": o.seed, "run_index": "post-batch",
+            "tier": o.tier.name(), "violation": {"class": v.class, "key": v.key, "step": v.step, "detail": v.detail}, "scenario": sc.to_json(),
+        });
+        if std::fs::write(&fname, serde_json::to_string_pretty(&file).unwrap()).is_err() {
+            eprintln!("HARNESS ERROR: cannot write replay {}", fname);
+            return 2;
+        }
+        unlisted += 1;
+        lines.push(format!("VIOLATION property={} replay={}", prop.id(), fname));
+        lines.push(format!("  seed={} {} :: {}", o.seed, v.class, v.detail));
+        reported.push(json!({"known": false, "run": "post-batch", "replay": fname, "what": v.detail}));
     }
     for (desc, n) in &known_hits {
         println!("KNOWN-FINDING: property={} {} [matched {} minimised replays]", prop.id(), desc, n);
